@@ -614,9 +614,10 @@ def load_mol(spec):
 # ---------------------------------------------------------------------------
 # orders, names, writer
 # ---------------------------------------------------------------------------
-def order_alphabet(n, limit=FULL_PERM_LIMIT):
+def order_alphabet(n, limit=FULL_PERM_LIMIT, stride=1):
     """List of (order, class); order[k] = canonical id of the k-th atom in
-    the file.  Identity first."""
+    the file.  Identity first.  stride > 1 (quick tier, files of > 60 atoms
+    only) keeps every stride-th rotation / transposition."""
     ident = tuple(range(n))
     if n <= limit:
         return [(p, "identity" if p == ident else "permutation")
@@ -629,10 +630,10 @@ def order_alphabet(n, limit=FULL_PERM_LIMIT):
             out.append((p, cls))
 
     add(ident, "identity")
-    for r in range(1, n):
+    for r in range(stride, n, stride):
         add(ident[r:] + ident[:r], "rotation")
     add(ident[::-1], "reversal")
-    for k in range(n - 1):
+    for k in range(0, n - 1, stride):
         p = list(ident)
         p[k], p[k + 1] = p[k + 1], p[k]
         add(tuple(p), "transposition")
@@ -825,10 +826,16 @@ class Recorder:
         _bump(self.res["events"], k, n)
 
 
-def check_molecule(spec, rec, only=None):
+def check_molecule(spec, rec, only=None, chunk=(0, 1), stride=1,
+                   rot6=False):
     """All orders x namings (+ bond layouts) of one molecule.
     only = (order, naming, bondmode) restricts to the identity reference plus
-    that single variant (replay of a minimal counter-example)."""
+    that single variant (replay of a minimal counter-example).
+    chunk = (c, k): this call handles orders c, c+k, ... (large files are
+    spread over several cases).  stride > 1: reduced order alphabet and one
+    naming scheme per non-identity order, schemes taken in rotation.
+    rot6 (quick tier): molecules of exactly FULL_PERM_LIMIT atoms get every
+    permutation but one naming scheme per non-identity order (in rotation)."""
     mol = load_mol(spec)
     n = mol.n
     cls = mol.charged_class()
@@ -973,28 +980,40 @@ def check_molecule(spec, rec, only=None):
             if got is not None:
                 compare(ident, naming, bondmode, got, "names")
         else:
-            first = run(order, namings[0], "sorted")
-            if first is not None:
-                compare(order, namings[0], "sorted", first, "order")
+            got = run(order, naming, "sorted")
+            if got is not None:
+                compare(order, naming, "sorted", got, "order")
                 if naming != namings[0]:
-                    got = run(order, naming, "sorted")
-                    if got is not None:
+                    first = run(order, namings[0], "sorted")
+                    if first is not None:
                         _name_check(mol, rec, cls, first, got, order, naming,
                                     "sorted", one_case)
         return
 
-    for bondmode in ("sorted", "reversed", "asis"):
-        if bondmode == base_mode:
-            continue
-        got = run(ident, base_naming, bondmode)
-        if got is not None:
-            compare(ident, base_naming, bondmode, got, "bond-record-order")
-            rec.event("bond-layout-variants")
-    orders = order_alphabet(n)
+    c, k = chunk
+    if c == 0:
+        for bondmode in ("sorted", "reversed", "asis"):
+            if bondmode == base_mode:
+                continue
+            got = run(ident, base_naming, bondmode)
+            if got is not None:
+                compare(ident, base_naming, bondmode, got,
+                        "bond-record-order")
+                rec.event("bond-layout-variants")
+        rec.event("molecules")
+    orders = order_alphabet(n, stride=stride)
     classes = set()
-    for order, ocls in orders:
+    done = 0
+    for oi, (order, ocls) in enumerate(orders):
+        if oi % k != c:
+            continue
+        done += 1
         first = base if order == ident else None
-        for naming in namings:
+        use = namings
+        if order != ident and (stride > 1 or (
+                rot6 and n == FULL_PERM_LIMIT)):
+            use = [namings[oi % len(namings)]]
+        for naming in use:
             if order == ident and naming == base_naming:
                 continue
             got = run(order, naming, "sorted")
@@ -1009,11 +1028,10 @@ def check_molecule(spec, rec, only=None):
                 _name_check(mol, rec, cls, first, got, order, naming,
                             "sorted", one_case)
         classes.add(ocls)
-    for c in classes:
-        if c != "identity":
-            rec.res["nontrivial"].append(f"{mol.label}@{c}")
-    rec.event("orders-executed", len(orders))
-    rec.event("molecules")
+    for oc in classes:
+        if oc != "identity":
+            rec.res["nontrivial"].append(f"{mol.label}@{oc}")
+    rec.event("orders-executed", done)
 
 
 def _name_check(mol, rec, cls, first, got, order, naming, bondmode, one_case):
@@ -1241,8 +1259,9 @@ def check_complex_cell(case, rec):
                             [list(map(str, key)), [rq, rr],
                              [a.ffcharge, a.radius]])
             for kind, items in sorted(polluted.items()):
+                rec.event(f"complex:ligand-parameters-on-{kind}:names={tag}")
                 rec.violation(
-                    f"C16/complex/ligand-parameters-on-{kind}/names:{tag}",
+                    f"C16/complex/ligand-parameters-on-{kind}",
                     dict(detail, atoms=items[:6],
                          run_outcome=("written" if r.ok else
                                       f"aborted:{r.exc[0]}"),
@@ -1250,9 +1269,10 @@ def check_complex_cell(case, rec):
             if not r.ok:
                 cause = ("+".join(sorted(polluted)) if polluted
                          else "no-foreign-atom-touched")
+                rec.event(f"complex:aborted:{cause}:names={tag}")
                 rec.violation(
-                    f"C16/complex/run-aborts:{r.exc[0]}/{cause}/names:{tag}",
-                    dict(detail, message=r.exc[1],
+                    f"C16/complex/run-aborts:{r.exc[0]}",
+                    dict(detail, message=r.exc[1], touched=cause,
                          critical=[m for l, _n, m in r.warnings
                                    if l == "CRITICAL"][:3],
                          pdb=text, mol2=mol2), one)
@@ -1271,20 +1291,18 @@ def check_complex_cell(case, rec):
             for i in range(mol.n):
                 got = by_name.pop(names[i], [])
                 if len(got) == 0:
-                    rec.violation("C16/complex/ligand-atom-not-written/"
-                                  f"names:{tag}",
+                    rec.violation("C16/complex/ligand-atom-not-written",
                                   dict(detail, atom=names[i]), one)
                     continue
                 if len(got) > 1:
-                    rec.violation("C16/complex/ligand-atom-written-twice/"
-                                  f"names:{tag}",
+                    rec.violation("C16/complex/ligand-atom-written-twice",
                                   dict(detail, atom=names[i], n=len(got)), one)
                 for a in got:
                     if abs(a["charge"] - q[i]) > PQR_TOL or \
                             abs(a["radius"] - rad[i]) > PQR_TOL:
                         rec.violation(
                             "C16/complex/ligand-atom-parameters-differ-from-"
-                            f"mol2/names:{tag}",
+                            "mol2",
                             dict(detail, atom=names[i],
                                  written=[a["charge"], a["radius"]],
                                  mol2=[q[i], rad[i]]), one)
@@ -1296,7 +1314,7 @@ def check_complex_cell(case, rec):
                                  documented=exp), one)
             for nm, got in by_name.items():
                 rec.violation(
-                    f"C16/complex/unknown-atom-in-ligand-residue/names:{tag}",
+                    "C16/complex/unknown-atom-in-ligand-residue",
                     dict(detail, atom=nm), one)
             rec.event("complex:ligand-atoms-checked", mol.n)
             # non-ligand lines: identical multiset to the reference run
@@ -1315,7 +1333,7 @@ def check_complex_cell(case, rec):
                 else:
                     what = f"written-parameters-of-{kind}-changed"
                 rec.violation(
-                    f"C16/complex/{what}/names:{tag}",
+                    f"C16/complex/{what}",
                     dict(detail, atom=list(map(str, key)), with_ligand=a,
                          reference=b, pdb=text, mol2=mol2), one)
             rec.event("complex:non-ligand-lines-checked",
@@ -1336,7 +1354,10 @@ def run_case(case):
     mode = case["mode"]
     if mode == "mols":
         for spec in case["mols"]:
-            check_molecule(spec, rec)
+            check_molecule(spec, rec,
+                           chunk=(case.get("chunk", 0), case.get("nchunks", 1)),
+                           stride=case.get("stride", 1),
+                           rot6=case.get("rot6", False))
     elif mode == "one":
         check_molecule(case["mol"], rec,
                        only=(case["order"], case["naming"], case["bondmode"]))
@@ -1349,27 +1370,36 @@ def run_case(case):
     return rec.res
 
 
-def _cost(desc):
+def _cost(desc, rot6=False):
     """Rough number of evaluations for a descriptor (for bundling)."""
     inc = _incident(desc)
     n = len(desc["h"]) + sum(
         hcount(t, [(l, desc["h"][j]) for l, j in inc[i]])
         for i, t in enumerate(desc["h"]))
     norders = math.factorial(n) if n <= FULL_PERM_LIMIT else 2 * n
-    return 3 * norders * (1 + n / 8.0)
+    k = 1 if (rot6 and n == FULL_PERM_LIMIT) else 3
+    return k * norders * (1 + n / 8.0)
 
 
-def _bundle(descs, budget=1500.0):
+def _bundle(descs, budget=1500.0, rot6=False):
     cases, cur, cost = [], [], 0.0
+
+    def flush():
+        case = {"mode": "mols", "mols": list(cur)}
+        if rot6:
+            case["rot6"] = True
+        cases.append(case)
+
     for d in descs:
-        c = _cost(d)
+        c = _cost(d, rot6)
         if cur and cost + c > budget:
-            cases.append({"mode": "mols", "mols": cur})
-            cur, cost = [], 0.0
+            flush()
+            cur.clear()
+            cost = 0.0
         cur.append(d)
         cost += c
     if cur:
-        cases.append({"mode": "mols", "mols": cur})
+        flush()
     return cases
 
 
@@ -1409,9 +1439,26 @@ def enumerate_cases(tier, seed):
             descs += generic_molecules(n, True)
         for fam in ("ar6", "kek6", "kek5", "ar6sub", "sat5", "sat6"):
             descs += ring_family(fam)
-    cases += _bundle(descs)
+    if tier == "quick":
+        cases += _bundle(descs, 1500.0, rot6=True)
+    else:
+        cases += _bundle(descs, 6000.0)
     for f in bundled_files():
-        cases.append({"mode": "mols", "mols": [{"file": f}]})
+        n = load_mol({"file": f}).n
+        stride = 8 if (tier == "quick" and n > 60) else 1
+        if n > 60:
+            nchunks = 4 if tier == "quick" else 48
+        elif n > 30:
+            nchunks = 8
+        else:
+            nchunks = 1
+        for c in range(nchunks):
+            case = {"mode": "mols", "mols": [{"file": f}]}
+            if nchunks > 1:
+                case.update(chunk=c, nchunks=nchunks)
+            if stride > 1:
+                case["stride"] = stride
+            cases.append(case)
     subsets = _subsets(EXTRAS)
     if tier == "quick":
         ligs = ["methanol", "methylammonium", "acetate", "ethanol.mol2"]
